@@ -17,6 +17,14 @@ Reads
       c08_tail_path_rule_agrees needs; `message_events.len()` = CountAll, refuted by c08_tail_count_all_refuted; any
       other expression is not guessed), that message_events are the message frames of tail.events, that from_seq in it
       is the cut resolve_cutpoint_from_tail returned and that the accepted input is tail.events itself
+  crates/ripd/src/{continuities,continuity_stream_cache}.rs : the head a reader of the mr sidecar uses (S24 fix):
+      head_seq_seen_by_messages_runs_v1 has the body the model's `head_seen true` states, try_read_head_v1 flags exactly
+      the kinds append_messages_runs_best_effort_v1 writes, both readers (tail path, mr seek window) read the head
+      BEFORE the mr sidecar and pass their own view's last seq, append_best_effort flushes the full sidecar line before
+      it writes the mr line  -> gen_racing_head_fixed (obligation gen_racing_head_ok)
+  the same files: a checkpoint frame in flight (S25 fix): compaction_checkpoint_caches_behind_head_v1 has the body the
+      model's `ckpts_seen true` states and both *_for_compile_v1 lookups ask the checkpoint caches only when it is false
+      -> gen_racing_ckpt_fixed (obligation gen_racing_ckpt_ok)
 Emits coq/Gen/CompileConsts.v: gen_recent_limit, gen_max_refs : N, gen_ckpt_frame_rule, gen_ok_compile_consts : bool and the obligation
 gen_compile_consts_ok.  The C08 theorems hold for every limit / level count; the case files evaluate the model at
 the generated values.  A construct that is not found sets gen_ok_compile_consts := false (never guess)."""
@@ -117,6 +125,64 @@ def main():
         if len(re.findall(r"message_events\.push\(", flat)) != 1 or len(re.findall(r"letmutmessage_events", flat)) != 1:
             ok = False
             notes.append("tail path: message_events is filled in more than one place")
+    # ---- the head a reader of the mr sidecar uses while an append is in flight (S24)
+    sc = rd("crates/ripd/src/continuity_stream_cache.rs")
+    head_fixed = True
+    def need(cond, what):
+        nonlocal head_fixed
+        if not cond:
+            head_fixed = False
+            notes.append("racing head: not found: %s" % what)
+    flat_of = lambda b: re.sub(r"\s+", "", b or "")
+    hb = flat_of(fn_body0(sc, "head_seq_seen_by_messages_runs_v1"))
+    need(hb == "{let(seq,in_messages_runs)=head;ifin_messages_runs&&mr_last_seq.is_none_or(|last|last<seq){seq.saturating_sub(1)}else{seq}}",
+         "head_seq_seen_by_messages_runs_v1 with the body the model states")
+    tb = flat_of(fn_body0(sc, "try_read_head_v1"))
+    need('letin_messages_runs=header.event_type=="continuity_message_appended"||header.event_type=="continuity_run_ended";(header.seq,in_messages_runs)' in tb
+         and "try_read_last_header_for_sidecar_path(continuity_id,&self.path_for(continuity_id))" in tb,
+         "try_read_head_v1: last frame of the FULL sidecar, flag = message_appended | run_ended")
+    ab = flat_of(fn_body0(sc, "append_messages_runs_best_effort_v1"))
+    need("if!matches!(&event.kind,EventKind::ContinuityMessageAppended{..}|EventKind::ContinuityRunEnded{..}){return;}" in ab,
+         "append_messages_runs_best_effort_v1 writes exactly message_appended | run_ended frames")
+    pb = flat_of(fn_body0(sc, "append_best_effort"))
+    i_flush, i_mr = pb.find("ifwriter.flush().is_err(){return;}"), pb.find("self.append_messages_runs_best_effort_v1(event);")
+    need(0 <= i_flush < i_mr, "append_best_effort: full sidecar line flushed before the mr line is written")
+    lbf = flat_of(lb)
+    need("letfull_head=self.stream_cache.try_read_head_v1(continuity_id).ok().flatten();matchself.stream_cache.scan_tail_messages_runs_v1(" in lbf,
+         "tail path: head read immediately before each tail scan")
+    need("letmr_last_seq=tail.events.last().map(|event|event.seq);letfull_head_seq=full_head.map(|head|head_seq_seen_by_messages_runs_v1(head,mr_last_seq));" in lbf
+         and "try_read_last_seq(" not in lbf,
+         "tail path: head taken through head_seq_seen_by_messages_runs_v1 with the tail's own last seq")
+    wb = flat_of(fn_body0(sc, "window_recent_messages_v1_from_message_id_messages_runs_v1"))
+    i_head, i_seek = wb.find("letfull_head=self.try_read_head_v1(continuity_id).ok().flatten();"), wb.find("file.seek(SeekFrom::Start(anchor_offset))?;")
+    need(0 <= i_head < i_seek, "mr window: head read before the forward scan of the mr sidecar")
+    need("last_seq_seen=last_seq_seen.max(header.seq);" in wb and "full_head.map(|head|head_seq_seen_by_messages_runs_v1(head,Some(last_seq_seen)))" in wb
+         and "ifn==0{boundary_pos=cur_offset;break;}" in wb and "try_read_last_seq(continuity_id)" not in wb,
+         "mr window: head through head_seq_seen_by_messages_runs_v1 with the last seq its forward scan saw; backward scan bounded by that scan")
+    # ---- a checkpoint frame in flight (S25): the *_for_compile_v1 lookups do not answer from checkpoint caches that lag behind the head
+    ckpt_fixed = True
+    def need2(cond, what):
+        nonlocal ckpt_fixed
+        if not cond:
+            ckpt_fixed = False
+            notes.append("racing checkpoint: not found: %s" % what)
+    bb = flat_of(fn_body0(sc, "compaction_checkpoint_caches_behind_head_v1"))
+    need2(bb.startswith("{lethead=self.try_read_last_header_for_sidecar_path(continuity_id,&self.path_for(continuity_id));letOk(Some(head))=headelse{returnfalse;};"
+                        'ifhead.event_type!="continuity_compaction_checkpoint_created"{returnfalse;}')
+          and "letsidecar_path=self.compaction_checkpoints_path_for_v1(continuity_id);ifsidecar_path.exists(){matchself.try_read_last_seq_for_sidecar_path(continuity_id,&sidecar_path){Ok(Some(seq))ifseq>=head.seq=>{}_=>returntrue,}}" in bb
+          and "letindex_path=self.compaction_checkpoints_index_path_for_v1(continuity_id);ifindex_path.exists(){matchload_compaction_checkpoint_index_v1(&index_path){Ok(Some(entries))ifentries.iter().any(|entry|entry.seq>=head.seq)=>{}_=>returntrue,}}false}" in bb,
+          "compaction_checkpoint_caches_behind_head_v1 with the body the model states")
+    cb = flat_of(fn_body0(sc, "append_compaction_checkpoints_best_effort_v1"))
+    need2("if!matches!(&event.kind,EventKind::ContinuityCompactionCheckpointCreated{..}){return;}" in cb,
+          "append_compaction_checkpoints_best_effort_v1 writes exactly checkpoint_created frames")
+    i_ck = pb.find("self.append_compaction_checkpoints_best_effort_v1(event);")
+    need2(0 <= i_flush < i_ck, "append_best_effort: full sidecar line flushed before the checkpoint sidecar line is written")
+    for name, call in (("latest_compaction_checkpoint_for_compile_v1", "latest_compaction_checkpoint_before_or_at_seq_v1(continuity_id,from_seq)"),
+                       ("hierarchical_compaction_checkpoints_for_compile_v1", "hierarchical_compaction_checkpoints_before_or_at_seq_v1(continuity_id,from_seq,max_levels,Some(COMPACTION_SUMMARY_KIND_CUMULATIVE_V1),)")):
+        fb_ = flat_of(fn_body0(co, name))
+        need2(("letcached=ifself.stream_cache.compaction_checkpoint_caches_behind_head_v1(continuity_id){Ok(None)}else{self.stream_cache.%s};ifletOk(Some(" % call) in fb_
+              and fb_.count("_before_or_at_seq_v1(") == 1,
+              "%s: the cache is asked only when it does not lag behind the head" % name)
     # checkpoint visibility rule of the two *_for_compile_v1 truth loops: `to_seq <= from_seq` alone (S9) or also the
     # checkpoint frame's own seq (`event.seq > from_seq` skipped).  Both loops must agree, else never guess.
     fn_body = fn_body0
@@ -160,15 +226,25 @@ def main():
         f.write("Definition gen_ckpt_frame_rule : bool := %s.\n" % ("true" if rule else "false"))
         f.write("(* what `let message_count = ...` of the tail path counts; an unknown expression is reported through gen_ok_compile_consts *)\n")
         f.write("Definition gen_tail_count : tail_count := %s.\n" % (tail_count or "CountAll"))
+        f.write("(* the readers of the mr sidecar take the head through head_seq_seen_by_messages_runs_v1 as Model/Compile.v head_seen true states it (S24 fix) *)\n")
+        f.write("Definition gen_racing_head_fixed : bool := %s.\n" % ("true" if head_fixed else "false"))
+        f.write("(* the *_for_compile_v1 lookups skip checkpoint caches that lag behind the head (Model/Compile.v ckpts_seen true, S25 fix) *)\n")
+        f.write("Definition gen_racing_ckpt_fixed : bool := %s.\n" % ("true" if ckpt_fixed else "false"))
         f.write("Definition gen_ok_compile_consts : bool := %s.\n" % ("true" if ok else "false"))
         f.write("Lemma gen_compile_consts_ok : gen_ok_compile_consts && (0 <? gen_recent_limit) && (0 <? gen_max_refs) = true.\n")
+        f.write("Proof. vm_compute. reflexivity. Qed.\n")
+        f.write("(* c08_racing_append_linearizes / c08_racing_compile_linearizes are about `head_seen true` *)\n")
+        f.write("Lemma gen_racing_head_ok : gen_racing_head_fixed = true.\n")
+        f.write("Proof. vm_compute. reflexivity. Qed.\n")
+        f.write("(* c08_racing_checkpoint_linearizes is about `ckpts_seen true` *)\n")
+        f.write("Lemma gen_racing_ckpt_ok : gen_racing_ckpt_fixed = true.\n")
         f.write("Proof. vm_compute. reflexivity. Qed.\n")
         f.write("(* the hypothesis of c08_tail_path_rule_agrees, for the rule the source uses *)\n")
         f.write("Lemma gen_tail_count_ok : tail_count_sound gen_tail_count = true.\n")
         f.write("Proof. vm_compute. reflexivity. Qed.\n")
     for n in notes:
         print("note:", n)
-    print("compile_consts: limit=%s max_refs=%s frame_rule=%s tail_count=%s ok=%s" % (limit, refs, rule, tail_count, ok))
+    print("compile_consts: limit=%s max_refs=%s frame_rule=%s tail_count=%s racing_head_fixed=%s racing_ckpt_fixed=%s ok=%s" % (limit, refs, rule, tail_count, head_fixed, ckpt_fixed, ok))
     return 0
 
 
